@@ -70,6 +70,96 @@ def data_model(backend: str) -> List[Dict[str, Any]]:
     return mds
 
 
+ENUMS: List[Dict[str, Any]] = [
+    {"metadata_type": "define_enum", "namespace": "mdlns", "name": "Color", "values": ["Red", "Blue", "Green"]},
+    {"metadata_type": "define_enum", "namespace": "xns.sub", "name": "Kind", "values": ["Kzero", "Kone"]},
+]
+
+
+def enum_model() -> List[Dict[str, Any]]:
+    """Enums a query may declare (define_enum): one in a top-level namespace, one in a nested namespace.  The
+    first component of `namespace` becomes a GLOBAL name of the translator (`cpp_types.g_toplevel_ns`): a free
+    `mdlns` in the query means the namespace, a lambda parameter spelled `mdlns` is a parameter."""
+    return [dict(m) for m in ENUMS]
+
+
+def enum_constant(rng, m: Dict[str, Any]) -> T.Term:
+    """`mdlns.Color.Red` / `xns.sub.Kind.Kone` as a term"""
+    parts = m["namespace"].split(".")
+    t: T.Term = V(parts[0])
+    for p in parts[1:]:
+        t = attr(t, p)
+    return attr(attr(t, m["name"]), rng.choice(m["values"]))
+
+
+def global_names(mds: List[Dict[str, Any]]) -> Dict[str, List[str]]:
+    """The spellings that mean something to the pipeline when they occur FREE in a query, by the place that
+    gives them the meaning.  A lambda parameter may carry any of them (its body then cannot mention the free
+    one, which the renamer checks): the property says that the spelling of a bound name is irrelevant.
+      namespace : first components of the namespaces this query declares (resolved by `resolve_id` through
+                  `get_toplevel_ns` when the frame stack has no binding) + deeper components, enum names, values
+      plugin    : names/arguments/result/instance names of the add_cpp_function items, collection names,
+                  method names with declared types, inject_code / job script names
+      operator  : func_adl's sequence operators and the dataset/metadata heads (dispatched on by spelling)
+      function  : math functions the translator knows by name
+      cpp       : C++ words and the namespaces of the declared C++ types
+      wire      : node names of qastle's text format"""
+    ns: List[str] = []
+    deep: List[str] = []
+    plug: List[str] = []
+    cpp: List[str] = ["std", "this", "result", "int", "auto"]
+    for m in mds:
+        t = m.get("metadata_type")
+        if t == "define_enum":
+            parts = str(m["namespace"]).split(".")
+            ns.append(parts[0])
+            deep += parts[1:] + [str(m["name"])] + [str(v) for v in m["values"]]
+        elif t == "add_cpp_function":
+            plug += [str(m["name"])] + [str(a) for a in m.get("arguments", [])]
+            plug += [str(m[k]) for k in ("result_name", "method_object") if k in m]
+        elif isinstance(t, str) and t.endswith("_event_collection_info"):
+            plug.append(str(m["name"]))
+            cpp.append(str(m["element_type"]).split("::")[0])
+        elif t == "add_method_type_info":
+            plug.append(str(m["method_name"]))
+            cpp.append(str(m["type_string"]).split("::")[0])
+        elif t in ("inject_code", "add_job_script"):
+            plug.append(str(m["name"]))
+
+    def uniq(l):
+        import keyword
+        import re
+
+        # a spelling <letters><digits> is what the comparison takes for a generated name when it meets it in a
+        # declaring position (ASSUMPTIONS of the check): such spellings (s1, blk1) are not offered as parameter names
+        return [x for i, x in enumerate(l) if x.isidentifier() and not keyword.iskeyword(x) and not re.match(r"^[A-Za-z_]*[A-Za-z_][0-9]+$", x) and x not in l[:i]]
+
+    return {
+        "namespace": uniq(ns),
+        "namespace-member": uniq(deep),
+        "plugin": uniq(plug),
+        "operator": ["Select", "SelectMany", "Where", "First", "Count", "Sum", "Aggregate", "EventDataset", "MetaData", "ResultTTree"],
+        "function": ["sin", "sqrt", "abs"],
+        "cpp": uniq(cpp),
+        "wire": ["list", "call", "attr", "dict"],
+    }
+
+
+def related_words(mds: List[Dict[str, Any]]) -> Dict[str, List[str]]:
+    """used spelling -> the words of its declaration: a plug-in function's argument/result/instance names, an enum's
+    namespace components and values (for `variants.local_words`)."""
+    out: Dict[str, List[str]] = {}
+    for m in mds:
+        t = m.get("metadata_type")
+        if t == "add_cpp_function":
+            out[str(m["name"])] = [str(a) for a in m.get("arguments", [])] + [str(m[k]) for k in ("result_name", "method_object") if k in m] + ["result"]
+        elif t == "define_enum":
+            words = str(m["namespace"]).split(".") + [str(m["name"])] + [str(v) for v in m["values"]]
+            for w in words:
+                out[w] = [x for x in words if x != w]
+    return out
+
+
 def extra_md(rng, backend: str) -> List[Dict[str, Any]]:
     """Optional items: injected code blocks, job scripts, an enum, and (rarely) a second, conflicting
     declaration of a method's type (order-sensitive: the later one wins)."""
@@ -96,6 +186,7 @@ class Gen:
         self.n = 0
         self.style = style or rng.choice(["call", "method", "mixed"])
         self.features: Dict[str, int] = {}
+        self.enums: List[Dict[str, Any]] = []  # the enums the query may mention (make_query decides)
 
     def feat(self, k: str):
         self.features[k] = self.features.get(k, 0) + 1
@@ -206,6 +297,8 @@ class Gen:
         choices = ["cmp"] * 4
         if objs:
             choices += ["b"]
+            if self.enums:
+                choices += ["enum"] * 6
         if d > 0:
             choices += ["and", "or", "not"]
         c = r.choice(choices)
@@ -216,6 +309,11 @@ class Gen:
         if c == "b":
             n, _ = r.choice(objs)
             return meth(V(n), "b")
+        if c == "enum":
+            # `j.i() == mdlns.Color.Red`: the namespace is a free name of the query
+            n, _ = r.choice(objs)
+            self.feat("enum-constant")
+            return N("cmp:" + r.choice(["Eq", "Eq", "NotEq"]), meth(V(n), "i"), enum_constant(r, r.choice(self.enums)))
         if c in ("and", "or"):
             self.feat("boolop")
             return N("bool:" + ("And" if c == "and" else "Or"), self.boolean(env, d - 1), self.boolean(env, d - 1))
@@ -259,6 +357,11 @@ class Gen:
         r = self.rng
         s, st = self.base_seq(env)
         et = st[1]
+        if self.enums and isinstance(et, tuple) and et[0] == "obj" and r.random() < 0.3:
+            # the shape of real queries with enums: filter on an enum-valued property, go on with the survivors
+            y = self.fresh("j")
+            self.feat("enum-constant")
+            s = self.op("Where", s, L([y], N("cmp:" + r.choice(["Eq", "Eq", "NotEq"]), meth(V(y), "i"), enum_constant(r, r.choice(self.enums)))))
         steps = r.choice([0, 1, 1, 2, 3]) if d > 0 else 0
         for _ in range(steps):
             k = r.choice(["Where", "Select", "Select", "SelectMany"])
@@ -268,6 +371,7 @@ class Gen:
                 if isinstance(et, tuple) and et[0] == "seq":
                     continue
                 s = self.op("Where", s, L([x], self.boolean(env2, d - 1)))
+
             elif k == "Select":
                 if isinstance(et, tuple) and et[0] == "seq":
                     continue
@@ -405,7 +509,7 @@ def needed_model(q: T.Term, backend: str) -> List[Dict[str, Any]]:
         if s[0] == "v":
             used.add(s[1])
     out = []
-    for m in data_model(backend):
+    for m in data_model(backend) + enum_model():
         name = m.get("method_name") or m.get("name")
         if name in used:
             out.append(m)
@@ -426,8 +530,16 @@ def tupleize(rng, mds: List[Dict[str, Any]], p_query: float = 0.5, p_key: float 
 def make_query(rng, backend: str, depth: int = 2) -> Tuple[T.Term, List[Dict[str, Any]], Dict[str, int]]:
     """(metadata-free query, metadata items, feature counts)"""
     g = Gen(rng, backend)
+    if rng.random() < 0.6:
+        g.enums = enum_model() if rng.random() < 0.5 else [rng.choice(enum_model())]
     q = g.query(depth)
-    mds = tupleize(rng, needed_model(q, backend) + extra_md(rng, backend))
+    mds = needed_model(q, backend) + extra_md(rng, backend)
+    for m in g.enums:
+        # an enum the query declares without (in the end) mentioning it: its namespace is a global name all the same
+        if m not in mds and rng.random() < 0.7:
+            mds.append(m)
+            g.feat("enum-declared-unused")
+    mds = tupleize(rng, mds)
     for m in mds:
         for k, v in m.items():
             if isinstance(v, tuple):
